@@ -42,6 +42,9 @@ var c20Sels = []c20Sel{
 	{"invalid", map[string]any{"matchExpressions": []any{map[string]any{"key": "pool", "operator": "In", "values": []any{}}}}},
 	{"exists-pool", map[string]any{"matchExpressions": []any{map[string]any{"key": "pool", "operator": "Exists"}}}},
 	{"pool-notin-a", map[string]any{"matchExpressions": []any{map[string]any{"key": "pool", "operator": "NotIn", "values": []any{"a"}}}}},
+	// matchLabels AND matchExpressions in one selector (both must hold; here they contradict each other: selects no node)
+	{"pool=a&&pool-notin-a", map[string]any{"matchLabels": map[string]any{"pool": "a"},
+		"matchExpressions": []any{map[string]any{"key": "pool", "operator": "NotIn", "values": []any{"a"}}}}},
 }
 
 func c20LayerTree(l, comp *c20Leaf, st, layer int) map[string]any {
@@ -521,7 +524,7 @@ func TestVerifC20Leaf(t *testing.T) {
 	// quick: every leaf x {none, companion-only, null, zero, value}^3 x the ten selector pairs that give the three
 	// nodes distinct situations; thorough: all layer states x every pair of the seven selector kinds.
 	states := []int{c20StNone, c20StComp, c20StNull, c20StZero, c20StVal, c20StEmptyParent}
-	selPairs := [][2]int{{0, 1}, {1, 0}, {0, 0}, {0, 2}, {2, 0}, {4, 0}, {4, 2}, {3, 2}, {0, 4}, {0, 3}}
+	selPairs := [][2]int{{0, 1}, {1, 0}, {0, 0}, {0, 2}, {2, 0}, {4, 0}, {4, 2}, {3, 2}, {0, 4}, {0, 3}, {7, 0}, {7, 2}} // 7: matchLabels+matchExpressions (seed C20-4)
 	if env.Thorough() {
 		states = nil
 		for st := 0; st < c20NumSt; st++ {
